@@ -280,55 +280,98 @@ func genDeps(r *core.Rand, W int, netT int64, windows int, bmtp []int64, illForm
 	return deps
 }
 
-func (P) Generate(g *core.Gen) {
-	// core.NewRand(seed) streams of adjacent seeds are one-draw shifts of each other; fork once so
-	// that every seed gets an unrelated stream.
-	r := g.R.Fork()
-	for i := 0; i < g.N(2500, 120000); i++ {
-		W := int(r.Pick(2, 3, 3, 4, 4, 5, 6, 8, 10))
-		excluded := ""
-		if r.Chance(1, 40) {
-			W = int(r.Pick(1, 1, 0))
-			excluded = "-window<2"
-		}
-		netT := r.Range(0, int64(W)+1)
-		if r.Chance(2, 3) && W > 0 {
-			netT = int64(W) - r.Range(0, int64(W)/2)
-		}
-		windows := int(r.Range(3, 6))
-		breakTime := r.Chance(1, 25)
-		if breakTime {
-			excluded += "-timerule"
-		}
-		illFormed := r.Chance(1, 8) // allow timeout < start (BIP9: DEFINED -> FAILED wins)
+// inst is one generated chain instance (one q-line).
+type inst struct {
+	W          int
+	netT       int64
+	deps       []gdep
+	t          *gtree
+	tips       []int
+	total      int
+	windows    int
+	qs         []string
+	class      string
+	nontrivial bool
+}
 
-		// phase 1: timestamps of the first branch decide where start/timeout are aimed, so deployments
-		// are drawn after a dry run of the main branch's timestamps with neutral versions.
-		t := &gtree{}
-		neutral := make([]gdep, 0)
-		wEff := W
-		if wEff == 0 {
-			wEff = 1
+func (in *inst) fields() []string {
+	ds := make([]string, len(in.deps))
+	for i, d := range in.deps {
+		ds[i] = d.String()
+	}
+	ns := make([]string, len(in.t.nodes))
+	for i, n := range in.t.nodes {
+		ns[i] = fmt.Sprintf("%d:%x:%d", n.parent, n.version, n.ts)
+	}
+	return []string{fmt.Sprint(in.W), fmt.Sprint(in.netT), strings.Join(ds, ";"), strings.Join(ns, ","), strings.Join(in.qs, ",")}
+}
+
+// genInstance draws one instance. With reuse != nil the header tree (hence every block hash) of
+// that instance is kept and only window / threshold / deployments / queries are drawn anew: two
+// chains over the same blocks with different rules must not influence each other.
+func genInstance(r *core.Rand, reuse *inst, allowExcluded bool) *inst {
+	W := int(r.Pick(2, 3, 3, 4, 4, 5, 6, 8, 10))
+	excluded := ""
+	if allowExcluded && r.Chance(1, 40) {
+		W = int(r.Pick(1, 1, 0))
+		excluded = "-window<2"
+	}
+	if reuse != nil && r.Chance(1, 2) {
+		W = reuse.W
+	}
+	netT := r.Range(0, int64(W)+1)
+	if r.Chance(2, 3) && W > 0 {
+		netT = int64(W) - r.Range(0, int64(W)/2)
+	}
+	windows := int(r.Range(3, 6))
+	breakTime := allowExcluded && r.Chance(1, 25)
+	if breakTime {
+		excluded += "-timerule"
+	}
+	illFormed := r.Chance(1, 8) // allow timeout < start (BIP9: DEFINED -> FAILED wins)
+	wEff := W
+	if wEff == 0 {
+		wEff = 1
+	}
+	var t *gtree
+	var tips []int
+	var deps []gdep
+	total := 0
+	forks := 0
+	if reuse != nil {
+		t, tips, total = reuse.t, reuse.tips, reuse.total
+		windows = total / wEff
+		if windows < 1 {
+			windows = 1
 		}
-		total := wEff*windows + r.Intn(wEff+1)
-		fr := r.Fork()
-		tip := grow(fr, t, -1, total, wEff, netT, neutral, breakTime)
+		var bmtp []int64
+		for _, j := range t.path(tips[0], 1<<30) {
+			if t.nodes[j].length%wEff == 0 || r.Chance(1, 10) {
+				bmtp = append(bmtp, t.mtp(j))
+			}
+		}
+		deps = genDeps(r, wEff, netT, windows, bmtp, illFormed)
+		forks = len(tips) - 1
+	} else {
+		// phase 1: timestamps of the first branch decide where start/timeout are aimed, so
+		// deployments are drawn after a dry run of the main branch's timestamps.
+		t = &gtree{}
+		total = wEff*windows + r.Intn(wEff+1)
+		tip := grow(r.Fork(), t, -1, total, wEff, netT, nil, breakTime)
 		var bmtp []int64
 		for _, j := range t.path(tip, 1<<30) {
 			if t.nodes[j].length%wEff == 0 || r.Chance(1, 10) {
 				bmtp = append(bmtp, t.mtp(j))
 			}
 		}
-		deps := genDeps(r, wEff, netT, windows, bmtp, illFormed)
+		deps = genDeps(r, wEff, netT, windows, bmtp, illFormed)
 		// phase 2: assign the votes of the main branch window by window (same timestamps)
 		{
 			t2 := &gtree{}
-			fr2 := r.Fork()
 			cur := -1
 			idxs := t.path(tip, 1<<30)
-			// rebuild genesis-first with planned votes
 			tmp := &gtree{}
-			grow(fr2, tmp, -1, total, wEff, netT, deps, false)
+			grow(r.Fork(), tmp, -1, total, wEff, netT, deps, false)
 			for k := len(idxs) - 1; k >= 0; k-- {
 				n := t.nodes[idxs[k]]
 				cur = t2.add(cur, tmp.nodes[len(idxs)-1-k].version, n.ts)
@@ -336,13 +379,13 @@ func (P) Generate(g *core.Gen) {
 			t = t2
 			tip = cur
 		}
-		tips := []int{tip}
-		forks := int(r.Pick(0, 1, 1, 2, 2, 3, 4))
+		tips = []int{tip}
+		forks = int(r.Pick(0, 1, 1, 2, 2, 3, 4))
 		for f := 0; f < forks; f++ {
 			// fork points: anywhere, but mostly next to a window boundary
 			fp := r.Intn(len(t.nodes))
 			if r.Chance(2, 3) {
-				k := int(r.Range(1, int64(windows)))*wEff - 1 + int(r.Pick(-1, 0, 0, 1)) // node index on the main branch ~ height
+				k := int(r.Range(1, int64(windows)))*wEff - 1 + int(r.Pick(-1, 0, 0, 1))
 				if k >= 0 && k < total {
 					fp = k
 				}
@@ -350,94 +393,170 @@ func (P) Generate(g *core.Gen) {
 			n := int(r.Range(1, int64(3*wEff)))
 			tips = append(tips, grow(r.Fork(), t, fp, n, wEff, netT, deps, breakTime))
 		}
+	}
 
-		// queries
-		var cand []int // interesting nodes
-		for j, n := range t.nodes {
-			m := n.length % wEff
-			if m == 0 || m == 1 || m == wEff-1 {
-				cand = append(cand, j)
-			}
+	// queries
+	var cand []int // interesting nodes
+	for j, n := range t.nodes {
+		m := n.length % wEff
+		if m == 0 || m == 1 || m == wEff-1 || (n.length >= 10 && n.length <= 12) {
+			cand = append(cand, j)
 		}
-		cand = append(cand, tips...)
-		nq := int(r.Range(3, 30))
-		var qs []string
-		order := r.Intn(4)
-		var qnodes []int
-		for k := 0; k < nq; k++ {
-			switch r.Intn(10) {
-			case 0:
-				qnodes = append(qnodes, -1)
-			case 1:
-				qnodes = append(qnodes, r.Intn(len(t.nodes)))
-			case 2:
-				qnodes = append(qnodes, tips[r.Intn(len(tips))])
-			default:
-				qnodes = append(qnodes, cand[r.Intn(len(cand))])
-			}
-		}
-		switch order {
+	}
+	cand = append(cand, tips...)
+	nq := int(r.Range(3, 30))
+	var qs []string
+	order := r.Intn(4)
+	var qnodes []int
+	for k := 0; k < nq; k++ {
+		switch r.Intn(10) {
 		case 0:
-			sort.Ints(qnodes)
+			qnodes = append(qnodes, -1)
 		case 1:
-			sort.Sort(sort.Reverse(sort.IntSlice(qnodes)))
+			qnodes = append(qnodes, r.Intn(len(t.nodes)))
+		case 2:
+			qnodes = append(qnodes, tips[r.Intn(len(tips))])
+		default:
+			qnodes = append(qnodes, cand[r.Intn(len(cand))])
 		}
-		focus := r.Intn(len(deps))
-		// warning bits worth asking about: the deployments' own bits (expected while Started/LockedIn,
-		// unknown before/after) and the stray bits some blocks carry
-		var warnBits []int
-		for _, d := range deps {
-			if d.bit < 29 {
-				warnBits = append(warnBits, d.bit)
-			}
+	}
+	switch order {
+	case 0:
+		sort.Ints(qnodes)
+	case 1:
+		sort.Sort(sort.Reverse(sort.IntSlice(qnodes)))
+	}
+	focus := r.Intn(len(deps))
+	// warning bits worth asking about: the deployments' own bits (expected while Started/LockedIn,
+	// unknown before/after) and the stray bits some blocks carry
+	var warnBits []int
+	for _, d := range deps {
+		if d.bit < 29 {
+			warnBits = append(warnBits, d.bit)
 		}
-		warnBits = append(warnBits, r.Intn(29))
-		for _, qn := range qnodes {
-			id := focus
-			if r.Chance(1, 3) {
-				id = r.Intn(len(deps))
-			}
-			switch r.Intn(14) {
-			case 13:
-				if qn >= 0 {
-					qs = append(qs, fmt.Sprintf("g@%d", qn))
+	}
+	warnBits = append(warnBits, r.Intn(29), 28, 0)
+	heavy := 0 // I / W queries walk all 29 warning bits: at most two per line
+	for _, qn := range qnodes {
+		id := focus
+		if r.Chance(1, 3) {
+			id = r.Intn(len(deps))
+		}
+		nn := qn // node for the ops that need a real block
+		if nn < 0 {
+			nn = 0
+		}
+		switch r.Intn(19) {
+		case 18:
+			if heavy < 2 {
+				heavy++
+				if r.Bool() {
+					qs = append(qs, fmt.Sprintf("W@%d", nn))
+				} else {
+					qs = append(qs, fmt.Sprintf("I%d@%d", r.Intn(2), nn))
 				}
-			case 12:
-				wb := r.Intn(29)
-				if r.Chance(2, 3) {
-					wb = warnBits[r.Intn(len(warnBits))]
-				}
-				qs = append(qs, fmt.Sprintf("w%d@%d", wb, qn))
-			case 0, 1, 2, 3, 4:
-				qs = append(qs, fmt.Sprintf("d%d@%d", id, qn))
-			case 5, 6:
-				qs = append(qs, fmt.Sprintf("s%d@%d", id, qn))
-			case 7:
-				qs = append(qs, fmt.Sprintf("a%d@%d", id, qn))
-			case 8, 9:
-				qs = append(qs, fmt.Sprintf("v@%d", qn))
-			case 10:
-				if excluded == "" {
-					qs = append(qs, fmt.Sprintf("c%d", id))
-				}
-			case 11:
-				qs = append(qs, fmt.Sprintf("d%d@%d", 7+r.Intn(3), qn)) // unknown deployment id
 			}
+		case 17:
+			qs = append(qs, fmt.Sprintf("m@%d", nn))
+		case 16:
+			qs = append(qs, fmt.Sprintf("h%d@%d", id, nn))
+		case 15:
+			qs = append(qs, fmt.Sprintf("%s@%d", []string{"G", "G", "M"}[r.Intn(3)], nn))
+		case 14:
+			// the three entry points of one deployment state must agree on the same tip
+			qs = append(qs, fmt.Sprintf("s%d@%d", id, qn), fmt.Sprintf("d%d@%d", id, qn), fmt.Sprintf("a%d@%d", id, qn))
+		case 13:
+			qs = append(qs, fmt.Sprintf("g@%d", nn))
+		case 12:
+			wb := r.Intn(29)
+			if r.Chance(2, 3) {
+				wb = warnBits[r.Intn(len(warnBits))]
+			}
+			qs = append(qs, fmt.Sprintf("w%d@%d", wb, qn))
+		case 0, 1, 2, 3, 4:
+			qs = append(qs, fmt.Sprintf("d%d@%d", id, qn))
+		case 5, 6:
+			qs = append(qs, fmt.Sprintf("s%d@%d", id, qn))
+		case 7:
+			qs = append(qs, fmt.Sprintf("a%d@%d", id, qn))
+		case 8, 9:
+			qs = append(qs, fmt.Sprintf("v@%d", qn))
+		case 10:
+			if excluded == "" {
+				qs = append(qs, fmt.Sprintf("c%d", id))
+			}
+		case 11:
+			qs = append(qs, fmt.Sprintf("d%d@%d", 7+r.Intn(3), qn)) // unknown deployment id
 		}
-		if excluded == "" {
-			qs = append(qs, fmt.Sprintf("c%d", focus))
+	}
+	// results are values: after everything else ran, the first answers are asked for again
+	// (W/I answers are a sticky flag by design and are not repeated)
+	for k := 0; k < len(qs) && k < 3; k++ {
+		if qs[k][0] != 'W' && qs[k][0] != 'I' {
+			qs = append(qs, qs[k])
 		}
-		class := "linear"
-		if forks > 0 {
-			class = "forked"
+	}
+	if excluded == "" {
+		qs = append(qs, fmt.Sprintf("c%d", focus))
+	}
+	class := "linear"
+	if forks > 0 {
+		class = "forked"
+	}
+	if illFormed {
+		class += "-anytimeout"
+	}
+	if excluded != "" {
+		class = "excluded" + excluded
+	}
+	return &inst{W: W, netT: netT, deps: deps, t: t, tips: tips, total: total, windows: windows, qs: qs,
+		class: class, nontrivial: total >= 3*wEff && len(qs) >= 3}
+}
+
+func (P) Generate(g *core.Gen) {
+	// core.NewRand(seed) streams of adjacent seeds are one-draw shifts of each other; fork once so
+	// that every seed gets an unrelated stream.
+	r := g.R.Fork()
+	for i := 0; i < g.N(2200, 100000); i++ {
+		in := genInstance(r, nil, true)
+		g.Case(in.class, in.nontrivial, "C14 q "+strings.Join(in.fields(), " "))
+	}
+	// 8 chain instances run concurrently: half of the groups share one header tree (same block
+	// hashes, different rules), the others are unrelated.
+	for i := 0; i < g.N(120, 4000); i++ {
+		var subs []string
+		var first *inst
+		shared := i%2 == 0
+		for k := 0; k < 8; k++ {
+			var in *inst
+			if shared && first != nil {
+				in = genInstance(r, first, false)
+			} else {
+				in = genInstance(r, nil, false)
+			}
+			if first == nil {
+				first = in
+			}
+			subs = append(subs, strings.Join(in.fields(), "/"))
 		}
-		if illFormed {
-			class += "-anytimeout"
+		class := "par-unrelated"
+		if shared {
+			class = "par-same-tree"
 		}
-		if excluded != "" {
-			class = "excluded" + excluded
+		g.Case(class, true, "C14 par "+strings.Join(subs, "|"))
+	}
+	// small exported helpers
+	for n := 0; n < 8; n++ {
+		g.Case("unit-str", n < 5, fmt.Sprintf("C14 str %d", n))
+	}
+	g.Case("unit-str", true, "C14 str 255")
+	for _, a := range []int64{0, 1, 2, 4294967294, 4294967295} {
+		g.Case("unit-eaa", true, fmt.Sprintf("C14 eaa %d", a))
+	}
+	for _, st := range []string{"-", "0", "1000"} {
+		for _, en := range []string{"-", "0", "2000"} {
+			g.Case("unit-noclock", true, fmt.Sprintf("C14 clk %s %s 1500", st, en))
 		}
-		g.Case(class, total >= 3*wEff && len(qs) >= 3, lineOf(W, netT, deps, t, qs))
 	}
 	genShipped(g)
 }
